@@ -66,6 +66,9 @@ def gen_device(rng):
     if n_wg + n_mk == 0:
         n_wg = 1
     same = rng.random() < 0.4
+    near = rng.random() < 0.3          # numeric columns whose values differ only in the 6th significant digit: not constant
+    if near:
+        n_wg, n_mk = rng.choice([2, 3, 4]), (0 if rng.random() < 0.7 else n_mk)
     base_speed = rng.choice([5.0, 20.0, 7.5])
     objs = []
     for i in range(n_wg):
@@ -80,6 +83,10 @@ def gen_device(rng):
                            ('pin', [120000.0, 3.5])):
             if rng.random() < 0.4:
                 setattr(wg, attr, rng.choice(vals))
+        if near:
+            wg.power = 312.4561 + 0.0007 * i
+            wg.speed = base_speed * (1 + 2e-6 * i)
+            wg.reprate = 1.0 + 3e-6 * (i % 3)
         objs.append(wg)
     grouped = rng.random() < 0.3 and n_wg >= 2
     mks = []
@@ -97,6 +104,7 @@ def gen_device(rng):
             dev.extend(list(objs))
         if mks:
             dev.extend(list(mks))
+    dev._verif_near = near
     return dev, objs, mks
 
 
@@ -132,6 +140,9 @@ def run_case(rng, info):
     if 'name' not in sel:
         sel = ['name'] + sel           # the constructor prepends it
     suppr, static = rng.random() < 0.6, rng.random() < 0.4
+    if getattr(dev, '_verif_near', False):
+        sel = sel + [t for t in ('power', 'speed') if t not in sel]
+        suppr = suppr or rng.random() < 0.8
     # a spreadsheet may redefine a built-in column (new_columns): here one numeric column of the selection gets the other
     # kind of number format (float <-> integer), for this spreadsheet only
     redefined = None
